@@ -428,6 +428,204 @@ def format_items_stream(h, res, rng, tier, flags, sources, crlf_open, failures):
     return len(cases)
 
 
+# ---------------------------------------------------------------------- statement sequences (both drivers + model)
+def cli_eval(cli, path):
+    """the real binary evaluating a file (stdin closed): what `blots FILE` prints"""
+    try:
+        p = subprocess.run([cli, path], stdin=subprocess.DEVNULL, capture_output=True, text=True, timeout=60)
+    except subprocess.TimeoutExpired:
+        return "TIMEOUT"
+    plain = lambda t: re.sub(r"\x1b\[[0-9;]*m", "", t).strip()
+    return "rc=%d stdout=%s stderr=%s" % (p.returncode, plain(p.stdout)[:600], plain(p.stderr)[:300])
+
+
+def sequence_stream(h, cli, res, seed, tier, open_classes, failures):
+    """SEQUENCES: the statement loops (blots --format binary, library loop, do-block layouts) on enumerated
+    statement sequences (checks/c07_gen.py::statement_sequences): a statement by the first token of its formatted
+    text x the kind of statement before it x what stands between them (line break, blank lines, comment lines,
+    end-of-line comment, CRLF) x what follows, at the top level and inside a do-block.
+      (impl, binary)  parse(blots --format output) == parse(source)                    [every case]
+      (impl, library) the same through the format_blots loop at several widths + equal evaluation outcomes
+      (model)         the text of coq/Formatter.v::format_cli (run_cli, vm_compute) == the binary's output text
+    -> number of evaluations"""
+    import c0809_lib as L08
+    rng = c.Rng(seed ^ 0x5E0C07)
+    quick = tier == "quick"
+    fam = g.statement_sequences(rng, not quick)
+    if not quick:
+        # the full product is run through the library loop; the binary (one process per file) gets a sample of it
+        cli_idx = sorted({rng.below(len(fam)) for _ in range(6000)})
+    else:
+        cli_idx = list(range(len(fam)))
+    dist = {}
+    for _, tg in fam:
+        for k in ("container", "first_token", "sep", "prev", "tail"):
+            d = dist.setdefault(k, {})
+            d[tg[k]] = d.get(tg[k], 0) + 1
+
+    def classes_of(srcs, outs):
+        cls_p = run_print(h, srcs, comments=True)
+        dtr = has_do_trailing_comment(h, srcs)
+        res_ = []
+        for k, src in enumerate(srcs):
+            cl = set()
+            if not isinstance(cls_p[k], str):
+                for st in cls_p[k]:
+                    cl |= set(st["classes"])
+            if dtr[k]:
+                cl.add("do-comment")
+            if if_newline(outs[k]):
+                cl.add("if-newline")
+            if crlf_lines(src):
+                cl.add("crlf-lines")
+            res_.append(cl)
+        return res_
+
+    reported = set()
+
+    def report(src, tg, width, cl, observed, driver):
+        covered = sorted(cl & open_classes)
+        if covered:
+            for k in covered:
+                failures[k] = failures.get(k, 0) + 1
+            return
+        # at most two reports per driver and one per source, so that each entry point can surface under the cap
+        if (driver, src) in reported or sum(1 for d, _ in reported if d == driver) >= 2:
+            return
+        if len(res.violations) < 6:
+            reported.add((driver, src))
+            res.violation("a statement sequence is formatted into a program with other statements (%s)" % driver,
+                          {"stream": "format", "driver": driver, "family": "statement-sequences", "case": tg,
+                           "source": src, "width": width, "observed": observed,
+                           "finding_classes_of_input": sorted(cl),
+                           "expected": "parse(output) == parse(source): the same number of statements with the same "
+                                       "trees (span-blind, comments ignored), hence the same evaluation",
+                           "rerun": "./check C07 --replay <this file>"})
+
+    # (library loop; the do-block layouts are reached through it at every width)
+    lcases = []
+    for s, tg in fam:
+        for w in sorted({0, 1, 30, 1 + rng.below(120)}):
+            lcases.append((s, w, tg))
+    lr = run_format(h, [(s, w) for s, w, _ in lcases])
+    lverd = {}
+    lbad = []
+    for k, r in enumerate(lr):
+        key = r[:8] if isinstance(r, str) else "L:%s EV:%s" % (r["L"], r["EV"])
+        lverd[key] = lverd.get(key, 0) + 1
+        if isinstance(r, str) or r["L"] != "SAME" or r["EV"] == "diff":
+            lbad.append(k)
+    lcl = classes_of([lcases[k][0] for k in lbad], [lr[k]["Ltext"] if not isinstance(lr[k], str) else "" for k in lbad])
+    for k, cl in zip(lbad, lcl):
+        s, w, tg = lcases[k]
+        r = lr[k]
+        report(s, tg, w, cl, r if isinstance(r, str) else
+               {"library_loop": r["L"], "evaluation": r["EV"], "formatted": r["Ltext"][:2000]}, "format_expr")
+
+    # (the one-line printer on the trees WITH their comments: the do-block arm of expr_to_source)
+    psrcs = [s for s, _ in fam]
+    pr = run_print(h, psrcs, comments=True)
+    pverd = {}
+    for (s, tg), r in zip(fam, pr):
+        if isinstance(r, str):
+            pverd[r[:8]] = pverd.get(r[:8], 0) + 1
+            if r.startswith("PANIC") or r.startswith("ABORT"):
+                report(s, tg, 0, set(), r, "expr_to_source")
+            continue
+        for st in r:
+            pverd[st["rt"]] = pverd.get(st["rt"], 0) + 1
+            if st["rt"] != "SAME":
+                cl = set(st["classes"]) | ({"crlf-lines"} if crlf_lines(s) else set())
+                if len(res.violations) < 6 and not (cl & open_classes) and not any(d == "expr_to_source" for d, _ in reported):
+                    reported.add(("expr_to_source", s))
+                    res.violation("a statement sequence (do-block with comments) is printed by expr_to_source into another program",
+                                  {"stream": "print", "driver": "expr_to_source", "family": "statement-sequences", "case": tg,
+                                   "source": s, "observed": "%s: %r" % (st["rt"], st["text"][:2000]),
+                                   "finding_classes_of_input": sorted(cl),
+                                   "rerun": "./check C07 --replay <this file>"})
+                else:
+                    for k in sorted(cl & open_classes):
+                        failures[k] = failures.get(k, 0) + 1
+
+    # (the real binary)
+    cli_same = cli_diff = cli_rej = protected = 0
+    texts = {}
+    os.makedirs(c.BUILD, exist_ok=True)
+    with tempfile.TemporaryDirectory(dir=c.BUILD) as td:
+        for i in cli_idx:
+            t, rc = cli_format(cli, fam[i][0], td, 0)
+            texts[i] = t
+        ok_idx = [i for i in cli_idx if texts[i] is not None]
+        cli_rej = len(cli_idx) - len(ok_idx)
+        eqs = c.harness_lines_resilient(h, "ast07eq", ["%s\t%s" % (hx(fam[i][0]), hx(texts[i])) for i in ok_idx])
+        bad = [(i, v) for i, v in zip(ok_idx, eqs) if v != "SAME"]
+        cli_diff = len(bad)
+        cli_same = len(ok_idx) - cli_diff
+        protected = sum(1 for i in ok_idx if any(l.lstrip().startswith("(-") for l in texts[i].split("\n")))
+        bcl = classes_of([fam[i][0] for i, _ in bad], [texts[i] for i, _ in bad])
+        # what the binary evaluates for the source and for its own output (first 60 failures; the ones whose
+        # results differ are reported first)
+        evs = {}
+        for (i, v), cl in list(zip(bad, bcl))[:60]:
+            if cl & open_classes:
+                continue
+            fin, fout = os.path.join(td, "ev_in.blots"), os.path.join(td, "ev_out.blots")
+            with open(fin, "w") as f:
+                f.write(fam[i][0])
+            with open(fout, "w") as f:
+                f.write(texts[i])
+            evs[i] = (cli_eval(cli, fin), cli_eval(cli, fout))
+        order = sorted(range(len(bad)), key=lambda k: 0 if bad[k][0] in evs and evs[bad[k][0]][0] != evs[bad[k][0]][1] else 1)
+        for k in order:
+            (i, v), cl = bad[k], bcl[k]
+            src, tg = fam[i]
+            obs = {"binary_output": texts[i][:2000], "reparse": v}
+            if i in evs:
+                obs["blots_source"], obs["blots_formatted"] = evs[i]
+            report(src, tg, 0, cl, obs, "cli-binary")
+    if cli_rej * 50 > len(cli_idx):
+        res.tie_broken("SEQUENCES: blots --format rejects %d of %d generated statement sequences (the grammar admits "
+                       "all of them on the pinned tree)" % (cli_rej, len(cli_idx)),
+                       "first: %r" % [fam[i][0] for i in cli_idx if texts[i] is None][0])
+
+    # (model: the CLI driver of coq/Formatter.v against the binary's text, on the same sequences)
+    midx = [i for i in ok_idx if rng.chance(1, 3 if fam[i][1]["first_token"] == "-" else 10)]
+    if not quick:
+        midx = midx[:3000]
+    mism, validated = [], 0
+    try:
+        ok, log = c.coq_make(["gen/ParensTable.vo", "Formatter.vo"])
+        if not ok:
+            raise c.BrokenTie("coq build of the formatter model (gen/ParensTable.vo, Formatter.vo)", log[-3000:])
+        mod = L08.model_format(h, [(fam[i][0], None, "cli") for i in midx], "c07seq")
+    except c.BrokenTie as e:
+        res.tie_broken(e.what, e.detail)
+        mod = None
+    if mod is not None:
+        for i, m in zip(midx, mod):
+            if m is None:
+                mism.append((fam[i][0], texts[i], "model evaluation failed"))
+            elif m[0] != "OK" or m[1] != texts[i]:
+                mism.append((fam[i][0], texts[i], m[1] if m[0] == "OK" else m[0]))
+            else:
+                validated += 1
+        if mism:
+            res.tie_broken("correspondence C07/SEQUENCES: the model of the --format loop (Formatter.v format_cli) and the "
+                           "binary disagree on %d of %d statement sequences" % (len(mism), len(midx)),
+                           "first: source=%r binary=%r model=%r" % mism[0])
+    res.streams["SEQUENCES"] = {
+        "programs": len(fam), "enumeration": "full product" if not quick else
+        "every (separator, statement), (earlier statement, statement), (head, statement) pair in each container",
+        "distribution": {k: dict(sorted(v.items())) for k, v in dist.items()},
+        "library_loop_cases": len(lcases), "library_widths": "default, 1, 30, one random in 1..120",
+        "library_verdicts": dict(sorted(lverd.items())),
+        "expr_to_source_with_comments_statements": dict(sorted(pverd.items())),
+        "cli_binary_cases": len(cli_idx), "cli_same": cli_same, "cli_diff": cli_diff, "cli_input_rejected": cli_rej,
+        "cli_outputs_with_a_protected_leading_minus": protected,
+        "model_cases": len(midx), "model_validated": validated, "model_mismatches": len(mism)}
+    return len(lcases) + len(cli_idx) + len(midx) + len(psrcs)
+
+
 def main(argv):
     tier, seed, replay = c.tier_and_seed(argv)
     res = c.Result(PID, tier, seed)
@@ -666,6 +864,8 @@ def main(argv):
     n_fi = format_items_stream(h, res, rng, tier, flags, fi_sources,
                                "crlf-lines" in open_classes, failures)
     n_eval += n_fi
+    # statement sequences through both statement loops and the model of the --format loop
+    n_eval += sequence_stream(h, cli, res, seed, tier, open_classes, failures)
     res.coverage["evaluations"] = n_eval + len(corr_cases)
     res.coverage["distinct_nontrivial"] = len(distinct)
     res.coverage["rule"] = ("distinct parsed programs whose printed / formatted text was produced and re-parsed "
